@@ -559,7 +559,7 @@ def await_(ctx, bodies=None, R=None):
     if not bad:
         R.ok("no-sync-guard-across-await", "", "%d await points inspected, none with a parking_lot/std guard live" % n)
     if bodies is None:
-        R.floor(n, 300, "yields", "await points analysed")
+        R.floor(n, 100, "yields", "await points analysed")
 
 
 # ------------------------------------------------------------------------------------------------ C20.block
@@ -578,7 +578,7 @@ def block(ctx, bodies=None, R=None):
                       "%s called in %s context (%s)" % (c.f, "/".join(sorted(cs)) or "unreached", b.id),
                       fail_msg="blocking acquisition %s is reachable in async context (%s): it blocks a runtime worker and can deadlock the holder's wake-up" % (c.f, b.id))
     if bodies is None:
-        R.floor(n, 15, "sites", "blocking acquisition call sites")
+        R.floor(n, 6, "sites", "blocking acquisition call sites")
 
 
 # ------------------------------------------------------------------------------------------------ C20.guard
